@@ -169,13 +169,39 @@ where
                 by_val.push(s);
             }
         }
+        // the same pieces must come out whatever kind of iterator feeds the segments in (exact or inexact size hints) ...
+        let mut variants: Vec<(&'static str, Vec<Segment<T::IntegralOf>>)> = vec![];
+        variants.push(("integral_iter_ref over filter(|_| true)", Segment::integral_iter_ref(f.segments.iter().filter(|_| true), k0).collect()));
+        variants.push(("integral_iter over filter(|_| true)", Segment::integral_iter(f.segments.clone().into_iter().filter(|_| true), k0).collect()));
+        {
+            let mut src = f.segments.clone().into_iter();
+            variants.push(("integral_iter over iter::from_fn", Segment::integral_iter(std::iter::from_fn(move || src.next()), k0).collect()));
+        }
+        {
+            let halves: Vec<Vec<Segment<T>>> = vec![f.segments[..f.segments.len() / 2].to_vec(), f.segments[f.segments.len() / 2..].to_vec()];
+            variants.push(("integral_iter over flat_map of two halves", Segment::integral_iter(halves.into_iter().flat_map(|h| h.into_iter()), k0).collect()));
+        }
+        variants.push(("integral_iter_ref over chain", Segment::integral_iter_ref(f.segments[..1].iter().chain(f.segments[1..].iter()), k0).collect()));
+        // ... and however the by-value iterator is consumed (positional adapters)
+        let nseg = f.segments.len();
+        let mut positional: Vec<(&'static str, usize, Option<Segment<T::IntegralOf>>)> = vec![];
+        positional.push(("last()", nseg - 1, Segment::integral_iter(f.segments.clone(), k0).last()));
+        for nth in [1usize, 2] {
+            if nth < nseg {
+                positional.push(("nth(n)", nth, Segment::integral_iter(f.segments.clone(), k0).nth(nth)));
+                positional.push(("skip(n).next()", nth, Segment::integral_iter(f.segments.clone(), k0).skip(nth).next()));
+            }
+        }
+        if nseg >= 3 {
+            positional.push(("step_by(2).nth(1)", 2, Segment::integral_iter(f.segments.clone(), k0).step_by(2).nth(1)));
+        }
         let empty: Piecewise<T> = Piecewise { segments: vec![] };
         let e1 = empty.indefinite().segments.len();
         let e2 = empty.integral(k0).segments.len();
-        (int, ind, by_ref, by_val, lazy_ok, e1 + e2)
+        (int, ind, by_ref, by_val, lazy_ok, e1 + e2, variants, positional)
     });
     cx.evals(4);
-    let (int, ind, by_ref, by_val, lazy_ok, empties) = match r {
+    let (int, ind, by_ref, by_val, lazy_ok, empties, variants, positional) = match r {
         Ok(t) => t,
         Err(p) => return Err(Fail::new(format!("piecewise integration panicked: {p}"), detail(json!(p)))),
     };
@@ -189,6 +215,21 @@ where
     let (ni, nr, nv) = (nums_of(&int.segments), nums_of(&by_ref), nums_of(&by_val));
     if ni.len() != nr.len() || ni.len() != nv.len() || !ni.iter().zip(&nr).all(|(a, b)| all_bits_eq(a, b)) || !ni.iter().zip(&nv).all(|(a, b)| all_bits_eq(a, b)) {
         return Err(Fail::new("Piecewise::integral, integral_iter_ref and integral_iter (by value) do not produce identical pieces", detail(json!({"integral": ni.iter().map(|v| fjs(v)).collect::<Vec<_>>(), "iter_ref": nr.iter().map(|v| fjs(v)).collect::<Vec<_>>(), "iter_by_value": nv.iter().map(|v| fjs(v)).collect::<Vec<_>>()}))));
+    }
+    for (vname, pieces) in &variants {
+        let nvv = nums_of(pieces);
+        if nvv.len() != ni.len() || !nvv.iter().zip(&ni).all(|(a, b)| all_bits_eq(a, b)) {
+            return Err(Fail::new(format!("{vname} does not produce the pieces of Piecewise::integral (the result must not depend on the kind of input iterator)"), detail(json!({"integral": ni.iter().map(|v| fjs(v)).collect::<Vec<_>>(), "variant": nvv.iter().map(|v| fjs(v)).collect::<Vec<_>>()}))));
+        }
+    }
+    for (pname, idx, piece) in &positional {
+        let ok = match piece {
+            Some(p) => all_bits_eq(&p.nums(), &ni[*idx]),
+            None => false,
+        };
+        if !ok {
+            return Err(Fail::new(format!("integral_iter(..).{pname}: the piece at position {idx} differs from the piece Piecewise::integral produces there"), detail(json!({"position": idx, "expected": fjs(&ni[*idx]), "got": piece.as_ref().map(|p| fjs(&p.nums()))}))));
+        }
     }
     for (name, res) in [("integral(k0)", &int), ("indefinite()", &ind)] {
         if let Some(c) = res.segments.iter().flat_map(|s| s.poly.nums()).find(|c| !c.is_finite()) {
